@@ -228,6 +228,7 @@ def make_origins() -> dict[str, Any]:
         }
     )
     ORIGINS["multi"] = MultiOrigin([ORIGINS["a"], ORIGINS["c"]])
+    ORIGINS["multi_tuple"] = MultiOrigin((ORIGINS["b"], ORIGINS["xml"]))  # the members given as a tuple
     # origins that differ from "a" / "gen" although they render the same fqn
     from pyoak.origin import EMPTY_CODE_RANGE, FileSource
 
